@@ -476,6 +476,14 @@ class Contract:
         def writes_to(obj):
             """frame ghost: number of attribute / item writes to this (pre-existing) object on this path"""
             return sum(1 for (o, n) in (getattr(interp, "write_log", None) or []) if o is obj)
+        def flat_src(res):
+            """ghost: the array whose trailing axes were flattened (row-major reshape to (n, -1)) to give `res`"""
+            for (r, a) in _S.GHOST.get("flatten", []):
+                if r is res:
+                    return a
+            return fresh_array("no_such_flatten", 4, "real")
+        vars["flat_src"] = flat_src
+
         def ndi_call(name, n=0):
             """ghost: (result, positional args, keyword args) of the n-th scipy.ndimage.<name> call on this path"""
             hits = [e for e in _S.GHOST.get("ndi", []) if e[0] == name]
